@@ -56,6 +56,11 @@ CHECKS = {
         text="Histories of add/refresh/stop/remove-all/re-add with TTLs from {1,2,3,0xFFFFFE,infinite} are executed on TimedStore directly, as offer datagrams through ServiceDiscover and as Subscribe datagrams through ServiceInstance, with refreshes placed at -4RES, -RES/4, +RES/4, +4RES and halfway around the pending expiry, and the clock then run past 0xFFFFFF s; every expiry/stop notification must be predicted by the reference model (exactly one, within RES of last-refresh+ttl, none after removal, none for infinite entries, none from a predecessor's timer).",
         note="Trusted: virtual loop, reference model. Refresh within RES of the deadline: both outcomes accepted, as the statement says.",
     ),
+    "C10": dict(
+        technique="model-based property testing on a deterministic virtual-time event loop: Hypothesis timing configurations and lifecycle scripts with timer-relative step placement, reference offer schedule checked reactively, deterministic phase x offset sweep and API probes",
+        text="Generated timing configurations and scripts of start / stop (also twice) / announce / stop_announce / connection loss / FindService datagrams, each step placed relative to the library's pending timers, run against 1..3 instances; through a record-and-forward wrapper of queue_send and independent decoding of all datagrams the check compares the first offer with the drawn initial delay (and the window the library asked the RNG for), every gap with the repetition/cyclic schedule, offer contents, exactly-one StopOffer per stop after having offered, none before the first offer of a cyclic instance, and no non-zero-TTL offer to anyone while stopped - including delayed FindService answers. The helper path SimpleService.start_announce/stop_announce runs against a real announcer (open finding KF-D6).",
+        note="Trusted: virtual loop, wire.py, the reference schedule. 'Has offered' = first offer queued. start() only on a stopped announcer.",
+    ),
 }
 ALL = ["C%02d" % i for i in range(1, 21)]
 NOT_APPLICABLE = {p: "check not built yet in this revision (in progress); the technique applies" for p in ALL if p not in CHECKS}
